@@ -4,7 +4,9 @@ Model of the step before every parser: what grid of cells the importers hand on 
 → excelize rows). Tied to the code by `corr.importer.grid` (files written in five styles, read by the real
 `tableau.NewImporter`).
 
-* CSV: every cell comes back as written; a record written as an empty line (one blank cell, unquoted) is skipped.
+* CSV: every cell comes back as written. A record written as an empty line (one blank cell, unquoted) comes back
+  as a row without cells when a later record follows (fix D46: before, such lines were skipped and later rows
+  moved up); empty lines after the last record are not rows.
 * XLSX: trailing blank cells of a row and trailing blank rows are not stored; everything else comes back as written.
 -/
 import TableauVerif.Model.Basic
@@ -14,10 +16,10 @@ open TableauVerif
 /-- a record that a CSV writer puts out as an empty line -/
 def blankLine (r : List Str) : Bool := r == [[]]
 
-def csvGrid (allQuoted : Bool) (rows : List (List Str)) : List (List Str) :=
-  if allQuoted then rows else rows.filter (fun r => !blankLine r)
-
 def trimRight {α} (p : α → Bool) (l : List α) : List α := (l.reverse.dropWhile p).reverse
+
+def csvGrid (allQuoted : Bool) (rows : List (List Str)) : List (List Str) :=
+  if allQuoted then rows else trimRight (·.isEmpty) (rows.map fun r => if blankLine r then [] else r)
 
 def xlsxGrid (rows : List (List Str)) : List (List Str) :=
   trimRight (·.isEmpty) (rows.map (trimRight (·.isEmpty)))
